@@ -47,6 +47,7 @@ def make(tier):
         make_type(P, t)
     make_grid(P)
     make_ptr(P)
+    make_record_perm(P)
     return P
 
 
@@ -223,3 +224,29 @@ def make_type(P, t):
         u.contract(f, cls='P', backends=['sat', 'cvc5'], what='%s: %s' % (t['t'], what), timeout=600)
     u.lemma('h_order_%s' % n, cls='P', backends=['sat', 'cvc5'], native=False, timeout=900,
             what='%s: == is an equivalence%s%s, for three fully symbolic values' % (t['t'], ', < is a strict weak (total) order compatible with ==' if 'lt' in ops else '', ', equal values hash equally' if 'hash' in ops else ''))
+
+
+def make_record_perm(P):
+    """== / != between EQUIVALENT records whose elements are declared in a different order (same labels, same value types): per label, not per position"""
+    shim = """#include <fcppt/record/object.hpp>
+#include <fcppt/record/comparison.hpp>
+#include <fcppt/record/element.hpp>
+#include <fcppt/record/make_label.hpp>
+FCPPT_RECORD_MAKE_LABEL(la);
+FCPPT_RECORD_MAKE_LABEL(lb);
+FCPPT_RECORD_MAKE_LABEL(lc);
+namespace r = fcppt::record;
+using r_ab = r::object<r::element<la, int>, r::element<lb, int>>; using r_ba = r::object<r::element<lb, int>, r::element<la, int>>;
+using r_abc = r::object<r::element<la, int>, r::element<lb, int>, r::element<lc, int>>; using r_cab = r::object<r::element<lc, int>, r::element<la, int>, r::element<lb, int>>;
+extern "C" bool vf_rec_perm_eq(int ax, int ay, int bx, int by){ return r_ab{la{} = ax, lb{} = ay} == r_ba{lb{} = by, la{} = bx}; }
+extern "C" bool vf_rec_perm_ne(int ax, int ay, int bx, int by){ return r_ab{la{} = ax, lb{} = ay} != r_ba{lb{} = by, la{} = bx}; }
+extern "C" bool vf_rec_perm3_eq(int ax, int ay, int az, int bx, int by, int bz){ return r_abc{la{} = ax, lb{} = ay, lc{} = az} == r_cab{lc{} = bz, la{} = bx, lb{} = by}; }
+"""
+    spec = 'function vf_rec_perm_eq\n  __CPROVER_assigns()\n  __CPROVER_ensures(__CPROVER_return_value == (ax == bx && ay == by))\n'
+    spec += 'function vf_rec_perm_ne\n  __CPROVER_assigns()\n  __CPROVER_ensures(__CPROVER_return_value == !(ax == bx && ay == by))\n'
+    spec += 'function vf_rec_perm3_eq\n  __CPROVER_assigns()\n  __CPROVER_ensures(__CPROVER_return_value == (ax == bx && ay == by && az == bz))\n'
+    P.generated['recperm.cpp'] = shim
+    P.generated['recperm.spec'] = spec
+    u = P.unit('recperm', 'recperm.cpp', specs=['recperm.spec'], inline=True)
+    for f in ('vf_rec_perm_eq', 'vf_rec_perm_ne', 'vf_rec_perm3_eq'):
+        u.contract(f, cls='P', backends=['sat', 'cvc5'], timeout=600, what='record == / != between equivalent records with permuted element order: holds exactly when the elements with the same LABEL are equal')
